@@ -15,6 +15,7 @@
 #include "parsec/parsec_config.h"
 #include "parsec/class/parsec_object.h"
 #include "parsec/class/lifo.h"
+#include "parsec/runtime.h"
 #include "parsec/mempool.h"
 #include <stdio.h>
 #include <stdlib.h>
@@ -39,6 +40,7 @@ static void *seen[MAXB];                          /* element address -> id (inde
 static volatile int seen_lock = 0;
 static int nseen = 0;
 static long final_count = 0;
+static int lifo_align = 8;
 
 static void die(const char *m) { fprintf(stderr, "pool_replay: %s\n", m); exit(3); }
 
@@ -86,6 +88,7 @@ static void setup(void)
     nseen = 0;
     memset((void*)slots, 0, sizeof(slots));
     parsec_mempool_construct(&mp, NULL, (size_t)esize, offsetof(elt_t, owner), (unsigned int)nthreads);
+    lifo_align = (int)PARSEC_LIFO_ALIGNMENT(&mp.thread_mempools[0].mempool);
 }
 
 static unsigned char tag_of(int tid, int i) { return (unsigned char)(1 + tid * MAXOPS + i); }
@@ -146,7 +149,7 @@ static void finish_execution(vs_run_t *r)
 {
     int i;
     if( nexec++ ) vt_reset_marker();
-    vt_raw("{\"e\":\"init\",\"np\":%d,\"es\":%d,\"al\":%d}", nthreads, esize, (int)PARSEC_LIFO_ALIGNMENT(&mp.thread_mempools[0].mempool));
+    vt_raw("{\"e\":\"init\",\"np\":%d,\"es\":%d,\"al\":%d}", nthreads, esize, lifo_align);
     vt_dump();
     if( r && r->deadlock ) vt_raw("{\"e\":\"Timeout\"}");
     fprintf(meta, "{\"sched\":\"");
